@@ -136,7 +136,7 @@ func (s *sub) Unsubscribe(clientID string, topics ...string) error {
 	defer s.mu.Unlock()
 	c := s.pool.Get()
 	defer c.Close()
-	_, err := c.Do("hdel", subPrefix+clientID, topics)
+	_, err := c.Do("hdel", redigo.Args{}.Add(subPrefix+clientID).AddFlat(topics)...)
 	if err != nil {
 		return err
 	}
